@@ -795,7 +795,7 @@ class C18(Property):
                        "render-animation-with-focus-obstacle", "feature:tiny-coordinates",
                        "feature:scenario-id-with-several-prediction-ids", "deep-copy-worked-on-in-place",
                        "feature:closed-course", "feature:sign-or-light-without-position",
-                       "long-lived-writer-used-again"]
+                       "long-lived-writer-used-again", "feature:map-without-lanelets"]
     assumptions = [
         "the snapshot reads public accessors only and never touches derived data whose computation is itself one of "
         "the side effects hunted (occupancy_set, distance, shapely_object)",
@@ -898,7 +898,13 @@ class C18(Property):
                 return node
             net = shift(net)
             obstacles = shift(obstacles)
-        pps = [gen.gen_planning_problem(rng, ids.take(), net) for _ in range(rng.randint(1, 2))]
+        no_map = rng.chance(0.07)
+        pps = [gen.gen_planning_problem(rng, ids.take(), net, with_lanelet_goal=not no_map)
+               for _ in range(rng.randint(1, 2))]
+        if no_map:
+            # a scenario without lanelets (obstacles and planning problems only): the smallest legal map
+            net = {"lanelets": [], "signs": [], "lights": [], "intersections": []}
+            features.add("map-without-lanelets")
         for pp in pps:
             if pp["goal_lanelets"] is not None:
                 pp["goal_lanelets"] = {str(k): v for k, v in pp["goal_lanelets"].items()}
